@@ -14,6 +14,7 @@ func init() {
 		rule{name: "G-cond", run: ruleGCond},
 		rule{name: "T-flagdead", run: ruleTFlagDead},
 		rule{name: "S-stackfx", run: ruleSStackFx},
+		rule{name: "T-truth", run: ruleTTruth},
 	)
 	register("C18",
 		"Lock discipline of the documented thread-safe types decided for every schedule by a lockset analysis (L-fee: every read/write of FeeQuotes.quotes, FeeQuote.fees, FeeQuote.expiryTime happens with the struct's RWMutex held in a sufficient mode; L-pair: acquire/release kinds pair on every path; L-order: acquisition order acyclic; L-escape: no guarded map handed out by reference). Verdict equality of concurrent vs sequential Execute is decided only through its structural cause: O-glob shows no function reachable from Engine.Execute writes package-level state.",
@@ -38,10 +39,10 @@ func init() {
 		rule{name: "S-reset", run: ruleSReset},
 		rule{name: "S-own", run: ruleSOwn},
 	)
-	register("C09", "P-dec", nil, rule{name: "P-dec", run: rulePDec}, rule{name: "ACC", run: ruleACC})
+	register("C09", "P-dec", nil, rule{name: "P-dec", run: rulePDec}, rule{name: "ACC", run: ruleACC}, rule{name: "L-fresh", run: ruleLFresh})
 	register("C14", "P-insp", nil, rule{name: "P-insp", run: rulePInsp}, rule{name: "T-tmpl", run: ruleTTmplScripts})
-	register("C16", "P-json", nil, rule{name: "P-json", run: rulePJSON}, rule{name: "FLOAT", run: ruleFloat}, rule{name: "T-dto", run: ruleTDto})
-	register("C13", "T-push T-nm", nil, rule{name: "P-codec", run: rulePCodec}, rule{name: "T-push", run: ruleTPush}, rule{name: "T-nm", run: ruleTNm}, rule{name: "T-op1", run: ruleTOp})
+	register("C16", "P-json", nil, rule{name: "P-json", run: rulePJSON}, rule{name: "FLOAT", run: ruleFloat}, rule{name: "T-dto", run: ruleTDto}, rule{name: "T-dto", run: ruleTDtoOnce}, rule{name: "L-fresh", run: ruleLFresh})
+	register("C13", "T-push T-nm", nil, rule{name: "P-codec", run: rulePCodec}, rule{name: "T-push", run: ruleTPush}, rule{name: "T-nm", run: ruleTNm}, rule{name: "T-op1", run: ruleTOp}, rule{name: "ACC-parse", run: ruleACCParse})
 	register("C01", "W-tx T-vi ACC", nil, rule{name: "W-tx", run: ruleWTx}, rule{name: "W-rd", run: ruleWRd}, rule{name: "T-vi", run: ruleTVi}, rule{name: "ACC", run: ruleACC})
 	register("C17", "T-fmt S-disp", nil, rule{name: "T-fmt", run: ruleTFmt}, rule{name: "S-disp", run: ruleSDisp})
 	register("C15", "S-chk T-ver", nil, rule{name: "S-chk", run: ruleSChk}, rule{name: "T-ver", run: ruleTVer}, rule{name: "T-tmpl", run: ruleTTmplScripts}, rule{name: "S-carry", run: ruleSCarry})
